@@ -8,6 +8,7 @@ import GgrsModel.Proofs.Lockstep
 import GgrsModel.Proofs.DropWorld
 import GgrsModel.Proofs.Pair
 import GgrsModel.Proofs.Triple
+import GgrsModel.Proofs.PairLockstep
 import GgrsModel.Proofs.HostSpec
 
 namespace Ggrs
@@ -375,5 +376,38 @@ theorem demo_triple_run (tA tB tC : TLState) :
         (by decide : (rget triA1.sync.queues 0).lastAddedFrame < ((0 : Nat) : Int) + INPUT_QUEUE_LENGTH)
         (by decide : rget (rget triA1.sync.queues 0).inputs (0 % INPUT_QUEUE_LENGTH) = ⟨((0 : Nat) : Int), 4⟩) eC))
   exact ⟨_, p5⟩
+
+/-! ### a concrete run of two lockstep sessions -/
+
+def demoLkPeer : P2P := { demoPeer with maxPrediction := 0, sync := SyncLayer.new 2 0 }
+def lkPeerTick (s : P2P) (v : Input) : Except String (P2P × List Request) :=
+  (s.addLocalInput 1 v).1.advanceLockstepFrame 0 []
+/-- B's call stalls (A's input is missing) but registers B's own input in its queue -/
+def demoLkB1 : P2P := (getOk (lkPeerTick demoLkPeer 9)).1
+/-- A receives B's frame 0 from B's queue: `demoLk1r`; A's next call simulates frame 0: `demoLk2` -/
+theorem demo_okLkB1 : isOk (lkPeerTick demoLkPeer 9) = true := by decide
+
+theorem demo_lkpair_run (tA tB : TLState) :
+    ∃ tA' tB', LkPStar ((demoLk, tA), (demoLkPeer, tB)) ((demoLk2, tA'), (demoLkB1, tB')) := by
+  have e1 := ok_of_isOk _ demo_okLk1
+  have e1r := ok_of_isOk _ demo_okLk1r
+  have e2 := ok_of_isOk _ demo_okLk2
+  have f1 := ok_of_isOk _ demo_okLkB1
+  have p1 := LkPStar.step _ _ _ (LkPStar.step _ _ _ (LkPStar.refl ((demoLk, tA), (demoLkPeer, tB)))
+      (LkPStep.left _ _ _ (LkHalf.localInput demoLk tA (demoLkPeer, tB) 0 5)))
+      (LkPStep.left _ _ _ (LkHalf.tick _ demoLk1 tA (demoLkPeer, tB) 0 (getOk (lkTick demoLk 5)).2 e1))
+  have p2 := LkPStar.step _ _ _ (LkPStar.step _ _ _ p1
+      (LkPStep.right _ _ _ (LkHalf.localInput demoLkPeer tB (demoLk1, _) 1 9)))
+      (LkPStep.right _ _ _ (LkHalf.tick _ demoLkB1 tB (demoLk1, _) 0 (getOk (lkPeerTick demoLkPeer 9)).2 f1))
+  have p3 := LkPStar.step _ _ _ p2 (LkPStep.left _ _ _
+      (LkHalf.arrive demoLk1 demoLk1r _ (demoLkB1, _) 0 0 9 1 [1] 1 (by decide : 1 ∈ demoLkB1.localPlayerHandles) (by decide)
+        (by decide : 1 < demoLkB1.sync.queues.length) (by decide) (by decide)
+        (by decide : ((0 : Nat) : Int) ≤ (rget demoLkB1.sync.queues 1).lastAddedFrame)
+        (by decide : (rget demoLkB1.sync.queues 1).lastAddedFrame < ((0 : Nat) : Int) + INPUT_QUEUE_LENGTH)
+        (by decide : rget (rget demoLkB1.sync.queues 1).inputs (0 % INPUT_QUEUE_LENGTH) = ⟨((0 : Nat) : Int), 9⟩) e1r))
+  have p4 := LkPStar.step _ _ _ (LkPStar.step _ _ _ p3
+      (LkPStep.left _ _ _ (LkHalf.localInput demoLk1r _ (demoLkB1, _) 0 5)))
+      (LkPStep.left _ _ _ (LkHalf.tick _ demoLk2 _ (demoLkB1, _) 0 (getOk (lkTick demoLk1r 5)).2 e2))
+  exact ⟨_, _, p4⟩
 
 end Ggrs
